@@ -124,6 +124,8 @@ type gmWalk struct {
 	incon  int64
 	dirty  bool
 	idx    int64
+	// endpoints dialled by a rejected update (C16)
+	rolledBack []string
 }
 
 func (w *gmWalk) say(f string, a ...interface{}) { w.log = append(w.log, fmt.Sprintf(f, a...)) }
@@ -660,6 +662,16 @@ func (w *gmWalk) mutate16(b gmBad) *GCPMultiEndpointOptions {
 			o.MultiEndpoints[n] = gmMeo(perm(1 + w.rng.Intn(3))...)
 		}
 	}
+	if b.kind != "valid" && b.kind != "default-missing" && len(names) > 1 && w.rng.Intn(2) == 0 {
+		// an invalid update that also names another (existing) default: after the
+		// rejection no-name / unknown-name RPCs must still use the old default
+		for _, n := range names {
+			if n != w.def {
+				o.Default = n
+				break
+			}
+		}
+	}
 	switch b.kind {
 	case "default-missing":
 		o.Default = "zzz"
@@ -683,6 +695,12 @@ func (w *gmWalk) mutate16(b gmBad) *GCPMultiEndpointOptions {
 	case "valid":
 		if w.rng.Intn(2) == 0 {
 			o.MultiEndpoints["extra"] = gmMeo(perm(2)...)
+		}
+		if len(w.rolledBack) > 0 {
+			// endpoints whose pools were dialled and rolled back by a rejected update
+			// get a MultiEndpoint of their own: they must be dialled afresh
+			o.MultiEndpoints["fresh"] = gmMeo(w.rolledBack...)
+			w.rolledBack = nil
 		}
 		if w.rng.Intn(3) == 0 && len(names) > 1 {
 			delete(o.MultiEndpoints, names[len(names)-1])
@@ -793,6 +811,9 @@ func gmRunC16(rng *vRand, idx int64) *gmWalk {
 	nUpd := 1 + rng.Intn(4)
 	for i := 0; i < nUpd && w.viol == nil; i++ {
 		b := gmBadKinds[rng.Intn(len(gmBadKinds))]
+		if len(w.rolledBack) > 0 {
+			b = gmBad{"valid", 0}
+		}
 		upd := w.mutate16(b)
 		if upd == nil {
 			continue
@@ -834,12 +855,29 @@ func gmRunC16(rng *vRand, idx int64) *gmWalk {
 				break
 			}
 			w.setModel(upd)
+			w.hit("C16.accepted-update")
+			// no mentioned endpoint may be served by a pool that was closed earlier
+			for e := range w.mentioned() {
+				if w.openConn(e) == nil {
+					w.fail("C16.closed-pool-reused", "", "after an accepted update endpoint %s is mentioned but has no open pool (dial log %v): a pool closed earlier is being reused", e, w.order)
+				}
+			}
+			if _, ok := upd.MultiEndpoints["fresh"]; ok {
+				w.hit("C16.redial-after-rollback")
+			}
 			w.settleAllReady()
 			s1, _ := w.snapshot()
 			if strings.Contains(s1, "PANIC") || strings.Contains(s1, "closing") {
 				w.fail("C16.rpc-after-update", "accepted", "after an accepted update an RPC panicked or used a closed pool: %s", s1)
 			}
 			continue
+		}
+		if b.kind == "dial-fail" && uerr != nil && len(dialled) > 1 && i+1 < nUpd+1 {
+			// pools dialled before the failing dial were rolled back
+			w.rolledBack = append([]string{}, dialled[:len(dialled)-1]...)
+			if i+1 == nUpd {
+				nUpd++ // make room for the follow-up valid update
+			}
 		}
 		if b.kind == "dial-fail" && len(dialled) < b.fail {
 			// fewer dials than planned (should not happen: fresh endpoints are all new)
